@@ -243,6 +243,9 @@ pub struct StmtSpec
     pub kvs: Vec<Kv>,
     /// a `ref` entry: (position among the kvs, value text)
     pub ref_kv: Option<(usize, String)>,
+    /// capture modifier on the `ref` key (`ref:% = 12`), valid for the log crate and recognised like a plain `ref`
+    #[serde(default)]
+    pub ref_modifier: Option<String>,
     /// raw text at the very start of the message literal ("" = nothing)
     pub msg_prefix: String,
     /// rest of the literal's source text (already escaped)
@@ -264,7 +267,7 @@ pub struct StmtSpec
     pub bang_gap: u8,
 }
 
-pub const NAME_GAPS: &[&str] = &["", " ", "\t", "\n    ", "  "];
+pub const NAME_GAPS: &[&str] = &["", " ", "\t", "\n    ", "  ", " /* c */ ", "/**/", "\u{200e}", " // x\n    ", "\u{200f} "];
 
 pub const GAPS: &[&str] = &[
     "",
@@ -306,6 +309,11 @@ pub const BEFORE: &[&str] = &[
     "let s = \"q\\\"\"; ",
     "𠮷!(z); ",
     "日本(); ",
+    // inside a brace- or bracket-delimited invocation of some other macro whose body starts like a key-value
+    "tokio::select! { msg = rx.recv() => { ",
+    "select! { r = fut => ",
+    "let _v = vec![n = 1, ",
+    "cfg_if! { a = b; ",
 ];
 pub const AFTER: &[&str] = &[";", "", ",", " }", "; // done", " ; /* end */"];
 
@@ -507,8 +515,9 @@ pub fn stmt(p: &StmtParams) -> BoxedStrategy<StmtSpec>
         (
             0usize..4,
             prop_oneof![3 => select(REF_VALUES_VALID), 2 => select(REF_VALUES_UNUSABLE)],
+            prop_oneof![5 => Just(None), 1 => select(MODIFIERS).prop_map(|m| Some(m.to_string()))],
         )
-            .prop_map(|(pos, v)| Some((pos, v.to_string())))
+            .prop_map(|(pos, v, m)| Some(((pos, v.to_string()), m)))
             .boxed(),
         None,
     );
@@ -536,12 +545,18 @@ pub fn stmt(p: &StmtParams) -> BoxedStrategy<StmtSpec>
                 (msg_prefix, msg_body, args, trailing_comma),
                 (gaps, before, after, preamble, trailing_directive, name_gap, bang_gap),
             )| {
+                let (ref_kv, ref_modifier) = match ref_kv
+                {
+                    Some((kv, m)) => (Some(kv), m),
+                    None => (None, None),
+                };
                 StmtSpec {
                     macro_idx,
                     qualified,
                     target,
                     kvs,
                     ref_kv,
+                    ref_modifier,
                     msg_prefix,
                     msg_body,
                     args,
@@ -991,7 +1006,7 @@ pub fn render_stmt_text(s: &StmtSpec, cfg: &ConfigSpec) -> (String, usize, usize
             (
                 Kv {
                     key: "ref".to_string(),
-                    modifier: None,
+                    modifier: s.ref_modifier.clone(),
                     value: Some(val.clone()),
                 },
                 true,
